@@ -4,6 +4,7 @@ import (
 	"fmt"
 	"regexp"
 	"strings"
+	"time"
 
 	"github.com/robertkrimen/otto"
 	"github.com/robertkrimen/otto/ast"
@@ -74,6 +75,19 @@ var findings = []finding{
 	{"C02-JSON-STRINGIFY-DEPTH", func() string { return wRun(`JSON.stringify(1, Array)`) }},
 	{"C02-GOSLICE-DEFINE-DESCRIPTOR", func() string {
 		return wRun(`Object.defineProperty(__goslice, "0", {get: function(){ return 1 }})`)
+	}},
+	{"C02-ARRAY-SHRINK-LINEAR", func() string {
+		vm := newVM(64, 100_000)
+		_, _ = vm.Run(`var a=[1]; a.length=20000000`)
+		start := time.Now()
+		res := w(func() { _, _ = vm.Run(`a.length=1`) })
+		if res != "" {
+			return res
+		}
+		if d := time.Since(start); d > 150*time.Millisecond {
+			return fmt.Sprintf("shrinking an empty array from length 2e7 to 1 took %v (one delete per index, no polling point): from 2^32-1 it is minutes that no interrupt can end", d.Round(10*time.Millisecond))
+		}
+		return ""
 	}},
 	{"C02-GOMAP-NIL", func() string { return wRun(`__gonilmap.a = 1`) }},
 	{"C02-EXPORT-UNGUARDED", func() string {
